@@ -49,7 +49,7 @@ def caret_in_bagof(t):
 
 def key_fn(prog, q, o=None):
     k = S.failure_key(prog, q, o)
-    if not k.startswith("one-char") and (caret_in_bagof(q) or any(caret_in_bagof(b) for _, b in prog)):
+    if (caret_in_bagof(q) or any(caret_in_bagof(b) for _, b in prog)):
         return "bagof-setof-caret-with-remaining-free-variables-fails"
     return k
 
@@ -123,7 +123,7 @@ def group_corpus():
 
 
 def run(ctx):
-    nprog = ctx.scale(320, 9000)
+    nprog = ctx.scale(900, 9000)
     ev, nontrivial, dist, failures, tie_breaks, samples = S.run_differential(
         ctx, FEATS, nprog, check_fn="check_run", log=True, make_queries=make_queries, key_fn=key_fn, est_limits=(80, 1500), corpus=group_corpus(),
         nontrivial_fn=lambda prog, q, o: (contains(q, ALLSOL) or any(contains(b, ALLSOL) for _, b in prog)) and bool(o[1] or o[2] is not None))
